@@ -39,6 +39,39 @@ def install_py0_hook():
     sys.meta_path.insert(0, Finder())
 
 
+def install_kernel_census(path):
+    """VERIF_COVER=<file>: count the calls of every compiled (fqe.lib.*) routine that the library's Python modules
+    reach through their module-level names; appended as one JSON line per worker at exit.  Harness-side only
+    (the names are rebound in the importing modules; nothing in /repo changes)."""
+    import atexit
+    import functools
+    import fqe  # noqa: F401
+    counts = {}
+
+    def wrap(name, fn):
+        @functools.wraps(fn)
+        def inner(*a, **kw):
+            counts[name] = counts.get(name, 0) + 1
+            return fn(*a, **kw)
+        inner._verif_census = True
+        return inner
+
+    for mname, m in list(sys.modules.items()):
+        if not mname.startswith('fqe') or m is None or mname.startswith('fqe.lib'):
+            continue
+        for attr, val in list(vars(m).items()):
+            if callable(val) and getattr(val, '__module__', '') and str(getattr(val, '__module__', '')).startswith('fqe.lib') \
+                    and not getattr(val, '_verif_census', False) and not isinstance(val, type):
+                key = '%s.%s' % (getattr(val, '__module__'), getattr(val, '__name__', attr))
+                counts.setdefault(key, 0)
+                setattr(m, attr, wrap(key, val))
+
+    def dump():
+        with open(path, 'a') as f:
+            f.write(json.dumps(counts) + '\n')
+    atexit.register(dump)
+
+
 def _jsonable(o):
     if hasattr(o, 'item'):
         return o.item()
@@ -63,6 +96,8 @@ def main():
         import fqe
         import fqe.settings
         fqe.settings.use_accelerated_code = False
+    if os.environ.get('VERIF_COVER') and mode != 'PY0':
+        install_kernel_census(os.environ['VERIF_COVER'])
     with open(jout, 'a') as f:
         for case in job['cases']:
             try:
